@@ -225,20 +225,20 @@ def base_plan(tier, seed, classes=('pess', 'opt', 'mcs'), opt_scripts=True, thre
             plan.append((cls, programs.cross2(cls, lib), dict(pb=2 if q else 3, max_exec=1200 if q else 60000)))
         if three:
             plan.append((cls, programs.cross3(cls, CONV + ('X',), MODES3, MODES3),
-                         dict(pb=1 if q else 2, max_exec=400 if q else 20000)))
+                         dict(pb=1 if q else 2, max_exec=300 if q else 20000)))
             plan.append((cls, programs.cross3(cls, ('X',), MODES3, MODES3, tag='x3x'),
                          dict(pb=2, max_exec=1500 if q else 30000)))
-            plan.append((cls, programs.four(cls, full=not q), dict(pb=1 if q else 2, max_exec=500 if q else 8000)))
+            plan.append((cls, programs.four(cls, full=not q), dict(pb=1 if q else 2, max_exec=300 if q else 8000)))
             if cls == 'opt' and opt_scripts:
                 plan.append((cls, programs.cross3(cls, ('GTX', 'GTI', 'PRV', 'GVV'), ('X', 'DNG', 'XSV', 'XX'), ('S', 'SIX', 'X')),
-                             dict(pb=1 if q else 2, max_exec=600 if q else 20000)))
+                             dict(pb=1 if q else 2, max_exec=300 if q else 20000)))
         for fam, par in extra:
             pr = fam(cls)
             if pr:
                 plan.append((cls, pr, par))
         plan.append((cls, programs.crowd(cls), dict(pb=1 if q else 2, max_exec=400 if q else 6000)))
         plan.append((cls, programs.twolock_follow(cls), dict(pb=1 if q else 2, max_exec=200 if q else 4000)))
-        plan.append((cls, programs.quiesce(cls), dict(pb=1 if q else 2, max_exec=100 if q else 3000)))
+        plan.append((cls, programs.quiesce(cls), dict(pb=1 if q else 2, max_exec=60 if q else 3000)))
         # seeded random schedules (any number of preemptions) of the 3-thread products complement the bounded search
         if three:
             plan.append((cls, programs.cross3(cls, CONV + ('X',), MODES3, MODES3, tag='r3'), dict(mode='random', max_exec=40 if q else 400)))
@@ -255,9 +255,9 @@ MODES3 = ('S', 'SIX', 'X')
 def check_c01(prop, tier, seed):
     q = tier == 'quick'
     plan = base_plan(tier, seed, extra=[(programs.twolocks, dict(pb=2)), (programs.twosec, dict(pb=2, max_exec=2000 if q else 30000))])
-    plan.append(('opt', programs.opt_basic() + programs.opt_prepare() + programs.opt_mix3(), dict(pb=2, max_exec=2000 if q else 30000)))
+    plan.append(('opt', programs.opt_basic() + programs.opt_prepare() + programs.opt_mix3(), dict(pb=2, max_exec=1000 if q else 30000)))
     plan.append(('opt', programs.cross3('opt', ('PRV', 'GTS', 'GTX'), ('X', 'XX', 'DNG', 'XSV'), ('S', 'SIX', 'X'), tag='o3r'),
-                 dict(mode='random', max_exec=150 if q else 1500)))
+                 dict(mode='random', max_exec=80 if q else 1500)))
     plan.append(('opt', programs.opt_quiesce(), dict(pb=1 if q else 2, max_exec=150 if q else 3000)))
     res = lock_abs_check(prop, tier, seed, ['CkCompat'], plan)
     res['assumptions'] = LOCK_ASSUME
